@@ -4,6 +4,7 @@ import (
 	"bytes"
 	"encoding/json"
 	"fmt"
+	"math"
 	"reflect"
 	"sort"
 	"strconv"
@@ -89,15 +90,42 @@ func NewKeyDialect(name string, U int, layers []uint8) *KeyDialect {
 	return d
 }
 
+// extreme integer keys (whole-range ordering, wrap-around in comparators or layer
+// arithmetic) occupy the last indexes of integer universes of 12 keys or more
+var extremeInts = []int64{math.MinInt64, math.MaxInt64, -6000000000000000000, 6000000000000000000, math.MinInt64 + 1, math.MaxInt64 - 1}
+var extremeUints = []uint64{math.MaxUint64, 1 << 63, 1<<63 - 1, math.MaxUint64 - 1, 1 << 62, 12000000000000000000}
+
+func (d *KeyDialect) extreme(i int) (int, bool) {
+	if d.U < 12 {
+		return 0, false
+	}
+	if j := i - (d.U - len(extremeInts)); j >= 0 {
+		return j, true
+	}
+	return 0, false
+}
+
 func (d *KeyDialect) mk(i int) interface{} {
 	switch d.Name {
 	case "int":
+		if j, ok := d.extreme(i); ok {
+			return int(extremeInts[j])
+		}
 		return i - d.U/3
 	case "int64":
+		if j, ok := d.extreme(i); ok {
+			return extremeInts[j]
+		}
 		return int64(i-d.U/3) * 3
 	case "uint":
+		if j, ok := d.extreme(i); ok {
+			return uint(extremeUints[j])
+		}
 		return uint(i)
 	case "uint64":
+		if j, ok := d.extreme(i); ok {
+			return extremeUints[j]
+		}
 		return uint64(i) * 2
 	case "string":
 		return "k" + strconv.Itoa(i)
@@ -210,6 +238,9 @@ func (v *ValDialect) Val(i int) interface{} {
 		return []byte{byte(i), 0, byte(i >> 8), 0xfe}
 	case "lval":
 		return LVal{L: []int{i, i + 1}, S: strconv.Itoa(i)}
+	case "ptr":
+		// a fresh allocation per call: equal values are distinct objects
+		return &SVal{X: i, Y: "p" + strconv.Itoa(i%3)}
 	case "nil":
 		return nil
 	}
@@ -228,6 +259,8 @@ func (v *ValDialect) Like() interface{} {
 		return []byte{}
 	case "lval":
 		return LVal{}
+	case "ptr":
+		return &SVal{}
 	case "nil":
 		return nil
 	}
@@ -251,4 +284,4 @@ func (v *ValDialect) Distinct(i, j int) bool {
 }
 
 var allKeyDialects = []string{"int", "int64", "uint", "uint64", "string", "bytes", "userkey", "struct"}
-var allValDialects = []string{"int", "string", "struct", "bytes", "lval", "nil"}
+var allValDialects = []string{"int", "string", "struct", "bytes", "lval", "ptr", "nil"}
